@@ -230,6 +230,68 @@ func runMerge(c *Ctx, prop string) {
 		c.Unk(rule, fnm, "take", kc.bin.Pos(), "the key comparison does not decide a branch: merge shape not recognised")
 		return
 	}
+	// first match: the injected list is searched from its first element upwards and the search stops
+	// at the first equal key (with a key repeated in the comment, taking the last one — a descending
+	// search, or one that keeps going — makes the two values swap places on every run)
+	{
+		var bad []string
+		var inner *loopInfo
+		for _, l := range naturalLoops(ov) {
+			if l.Body[kc.bin.Block()] && (inner == nil || len(l.Body) < len(inner.Body)) {
+				inner = l
+			}
+		}
+		if inner == nil {
+			bad = append(bad, "the key comparison is not inside a search loop")
+		} else {
+			if inner.Body[eqTo] && eqTo != inner.Header {
+				// still inside: allowed only if it leads straight out (e.g. sets the index then breaks)
+				leaves := false
+				for _, s2 := range eqTo.Succs {
+					if !inner.Body[s2] {
+						leaves = true
+					}
+				}
+				if !leaves {
+					bad = append(bad, "the search goes on after a matching key was found (the last match wins)")
+				}
+			} else if eqTo == inner.Header {
+				bad = append(bad, "the search goes on after a matching key was found (the last match wins)")
+			}
+			// ascending induction of the injected index
+			asc := false
+			var iv ssa.Value = kc.inIdx
+			if bo, ok := iv.(*ssa.BinOp); ok && bo.Op == token.ADD { // range loops index with phi+1
+				if k, isK := constInt(bo.Y); isK && k == 1 {
+					iv = bo.X
+				}
+			}
+			if ph, ok := iv.(*ssa.Phi); ok && ph.Block() == inner.Header {
+				asc = true
+				for i, e := range ph.Edges {
+					if !inner.Body[ph.Block().Preds[i]] {
+						if k, isK := constInt(e); !isK || (k != 0 && k != -1) {
+							asc = false
+						}
+						continue
+					}
+					bo, ok := e.(*ssa.BinOp)
+					if !ok || bo.Op != token.ADD {
+						asc = false
+						continue
+					}
+					if k, isK := constInt(bo.Y); !isK || k != 1 || bo.X != ph {
+						asc = false
+					}
+				}
+			}
+			if !asc {
+				bad = append(bad, "the injected list is not searched from its first element upwards")
+			}
+		}
+		c.Sites++
+		c.Check(len(bad) == 0, rule, fnm, "first-match", kc.bin.Pos(), "ascending search, stops at the first equal key", strings.Join(bad, "; "))
+	}
 	// dup candidates: phis one of whose edges is kc.inIdx arriving from a block dominated by the equal edge
 	var dup *ssa.Phi
 	var sentinel int64
